@@ -10,7 +10,7 @@ CONSTANTS
   PwI = {1}
   HostI = {1}
   PortI = {1}
-  PNameI = {1, 2, 3, 7}
+  PNameI = {1, 2, 7}
   PValI = {1, 2}
   KP = 2
   HNameI = {1}
